@@ -1,6 +1,6 @@
--- GENERATED by `gen schema` from src/free5gclib/ngap/ngapType/*.go. Do not edit.
+-- TS 38.413 (v15) abstract syntax of NGAP as a PER-visible schema: a frozen transcription, see Spec/Ts38413Schema.lean for its provenance.
 import Stgutg.Model.AperTypes
-namespace Stgutg.Gen.Ngap
+namespace Stgutg.Spec.Ts38413Schema
 open Stgutg.Aper
 
 def schema2 : List StructDef := [
@@ -284,4 +284,4 @@ def schema2 : List StructDef := [
     ⟨"List", { valueExt := true, sizeLB := some (1), sizeUB := some (65535) }, (.slice (.struct 298))⟩]⟩ -- 299
 ]
 
-end Stgutg.Gen.Ngap
+end Stgutg.Spec.Ts38413Schema
